@@ -281,7 +281,7 @@ _upd('C10',
 _upd('C12',
      CLAIMED['C12'][1] + ' Also proved: is_symmetric(_at) = depends only on the weight, find_negations_to_make_symmetric sound and complete, '
      'PyFunction.is_monotone, truth-table ordering and TruthTable\'s index-based equal-to-input, define() (keeps defined values, fills don\'t-cares).',
-     'Integer wrappers\' bit order is proved too (via Nat.toDigits 2). That the negation search returns the FIRST vector in enumeration order is by correspondence.')
+     'Integer wrappers\' bit order is proved too (via Nat.toDigits 2). The negation search returns the first working vector of the enumeration (proved).')
 _upd('C13',
      'Theorems: the comparison stage for any m>=1 is True exactly when some pair differs; end-to-end: on well-formed operands of equal shape '
      'with non-empty block names, whenever build_miter returns, the miter has the left inputs in order and one output that is True exactly on '
